@@ -18,9 +18,9 @@ def goTable : List ((String × String × String) × GoClass) := [
   (("alert/topics.go", "newHandler", "func"),
     .joined "bufHandler.Close/Abort (wg.Wait) from Topic.close/removeHandler; AlertNode.runAlert closes its anonymous topic on both exit paths since d61e6a5 (model: helper of kind alert)"),
   (("barrier.go", "idleBarrier.Init", "n.idleHandler"),
-    .joined "idleBarrier.Stop (stop signal + wg.Wait) from the deferred stopBarrierEmitter of runBarrierEmitter, i.e. before node.start closes the child edges; it also collects into the node's OWN input edge, which the parent closes: guarded by Edge.CollectUnlessClosed since e30c0fb (model: helper of kind barrier, action timerFire)"),
+    .joined "the handler of the LAST incarnation of every group: idleBarrier.Stop (stop signal + wg.Wait) from the deferred stopBarrierEmitter of runBarrierEmitter, i.e. before node.start closes the child edges (a failing node aborts its input edge first, 8c17403, so that a handler blocked collecting into the full edge returns). The handler of an EARLIER incarnation (its group was deleted by a DeleteGroup message and created again by the next point) is only signalled by idleBarrier.DeleteGroup, not joined: it returns at its next select; it can touch the child edges after the node has closed them only if its timer fires and it is not scheduled between that select and the send for the whole rest of the node's life (a send it had already queued precedes every later send of the node: FIFO) - looked for on the real code (idle 1 ms, delete(TRUE), writer pauses, stop at once: no panic, no goroutine left in 50 runs), not reproducible from outside, no repair made. It also collects into the node's OWN input edge, which the parent closes: guarded by Edge.CollectUnlessClosed since e30c0fb (model: helper of kind barrier, action timerFire)"),
   (("barrier.go", "periodicBarrier.Init", "n.periodicEmitter"),
-    .joined "periodicBarrier.Stop (close stopC + wg.Wait) from stopBarrierEmitter; same write into the own input edge, same guard (model: kind barrier)"),
+    .joined "EVERY incarnation: periodicBarrier.Stop only signals (close stopC; 93b2e57), the emitters of all groups, deleted ones included, share BarrierNode.periodicEmitters, which stopBarrierEmitter waits for before runF returns; same write into the own input edge, same guard, same abort of the input edge by a failing node (model: kind barrier)"),
   (("batch.go", "FluxQueryNode.Start", "func"),
     .joined "doQuery owns the edge it collects into (defer in.Close()); it returns on n.closing (stopBatch) and runBatch receives its result from queryErr (batch tasks are not in the model)"),
   (("batch.go", "FluxQueryNode.runBatch", "func"),
